@@ -120,7 +120,7 @@ CtlReply ctl_exchange(const std::string& host, std::uint16_t port, const std::st
     return rep;
 }
 
-static std::array<std::uint8_t, 32> store_pow_digest(const std::vector<std::uint8_t>& payload, const std::string& name, std::uint64_t nonce) {
+std::array<std::uint8_t, 32> store_pow_digest(const std::vector<std::uint8_t>& payload, const std::string& name, std::uint64_t nonce) {
     const auto chunk_id = en::crypto::Sha256::digest(std::span<const std::uint8_t>(payload));
     en::crypto::Sha256 h;
     h.update(std::span<const std::uint8_t>(chunk_id));
